@@ -74,13 +74,13 @@ func genStreams(c *vf.Ctx) []stream {
 		}
 	}
 	// valid length + random protobuf
-	nr := c.N(60, 3000)
+	nr := c.N(60, 1200)
 	for i := 0; i < nr; i++ {
 		n := r.IntN(200)
 		add("random-protobuf", fmt.Sprintf("valid length %d + random bytes", n), 2, append(le64(uint64(n)), rnd(n)...), 50, 1)
 	}
 	// pure random on each header
-	for i := 0; i < c.N(60, 3000); i++ {
+	for i := 0; i < c.N(60, 1200); i++ {
 		hdr := byte([]int{1, 2, 0, 3, 7, 255}[r.IntN(6)])
 		add("random-bytes", fmt.Sprintf("random %d bytes on mux header %d", 0, hdr), hdr, rnd(r.IntN(300)), 50, 1)
 	}
@@ -88,7 +88,7 @@ func genStreams(c *vf.Ctx) []stream {
 	base := [][]byte{
 		frame(&cproto.Command{Type: cproto.Command_COMMAND_TYPE_GET_NODE_META}),
 	}
-	for i := 0; i < c.N(60, 3000); i++ {
+	for i := 0; i < c.N(60, 1200); i++ {
 		b := append([]byte(nil), base[r.IntN(len(base))]...)
 		for k := 0; k < 1+r.IntN(3); k++ {
 			b[r.IntN(len(b))] ^= byte(1 << r.IntN(8))
